@@ -123,6 +123,36 @@ fn h2(v: &impl Hash) -> (u64, u64) {
 	(a.finish(), b.finish())
 }
 
+/// The real poison flags of every Poisonable in the world, as a bit string.
+pub fn poison_flags(targets: &[Target<'_>], arena: &Arena) -> u64 {
+	let mut pf = 1u64;
+	for p in &arena.pm {
+		pf = pf << 1 | p.is_poisoned() as u64;
+	}
+	for p in &arena.pr {
+		pf = pf << 1 | p.is_poisoned() as u64;
+	}
+	pf = pf << 1 | arena.ppm.is_poisoned() as u64;
+	pf = pf << 1 | arena.ppr.is_poisoned() as u64;
+	for t in targets {
+		if let Some(b) = t.coll.is_poisoned() {
+			pf = pf << 1 | b as u64;
+		}
+	}
+	pf
+}
+
+/// The threads read these flags between scheduling points; see `Inner::hidden_probe`.
+pub fn install_hidden_probe(exec: &Exec, targets: &[Target<'_>], arena: &Arena) {
+	struct P<'a>(&'a [Target<'a>], &'a Arena);
+	unsafe impl Send for P<'_> {}
+	let p = P(targets, arena);
+	exec.set_hidden_probe(Box::new(move || {
+		let q = &p;
+		poison_flags(q.0, q.1)
+	}));
+}
+
 fn snapshot(g: &Inner, targets: &[Target<'_>], arena: &Arena, cfg: &Cfg) -> Snap {
 	let mut parts: Vec<u64> = vec![];
 	let mut enabled = vec![];
@@ -184,20 +214,7 @@ fn snapshot(g: &Inner, targets: &[Target<'_>], arena: &Arena, cfg: &Cfg) -> Snap
 		parts.push(*s);
 	}
 	// poison flags: arena poisonables and poisonable targets
-	let mut pf = 0u64;
-	for p in &arena.pm {
-		pf = pf << 1 | p.is_poisoned() as u64;
-	}
-	for p in &arena.pr {
-		pf = pf << 1 | p.is_poisoned() as u64;
-	}
-	pf = pf << 1 | arena.ppm.is_poisoned() as u64;
-	pf = pf << 1 | arena.ppr.is_poisoned() as u64;
-	for t in targets {
-		if let Some(b) = t.coll.is_poisoned() {
-			pf = pf << 1 | b as u64;
-		}
-	}
+	let pf = poison_flags(targets, arena);
 	parts.push(pf);
 	for l in &g.leaked {
 		parts.push(0x1ea0000 | *l as u64);
@@ -446,7 +463,8 @@ impl<'p> Search<'p> {
 			struct Ptrs<'a, 'p>(*mut Search<'p>, &'a [Target<'a>], &'a Arena);
 			unsafe impl Send for Ptrs<'_, '_> {}
 			let ptrs = Ptrs(this as *mut _, targets_ref, arena_ref);
-			exec.set_decider(Box::new(move |g: &mut Inner| {
+			install_hidden_probe(&exec, targets_ref, arena_ref);
+		exec.set_decider(Box::new(move |g: &mut Inner| {
 				let p = &ptrs;
 				let s: &mut Search<'_> = unsafe { &mut *p.0 };
 				s.decide(g, p.1, p.2)
@@ -531,6 +549,7 @@ pub fn replay(prog: &Program, cfg: &Cfg, schedule: &[(u8, u16)]) -> Result<(Vec<
 		let ptrs = Ptrs(&mut pos, &mut err, &mut final_lines, targets_ref, arena_ref);
 		let sched = schedule.to_vec();
 		let cfg2 = cfg.clone();
+		install_hidden_probe(&exec, targets_ref, arena_ref);
 		exec.set_decider(Box::new(move |g: &mut Inner| {
 			let p = &ptrs;
 			let pos: &mut usize = unsafe { &mut *p.0 };
@@ -623,6 +642,7 @@ fn probe(prog: &Program, cfg: &Cfg, prefix: &[(u8, u16)], hook: Option<&StateHoo
 		struct Ptrs<'a>(*mut usize, *mut ProbeOut, &'a [Target<'a>], &'a Arena, &'a [(u8, u16)], &'a Cfg, Option<&'a StateHook>);
 		unsafe impl Send for Ptrs<'_> {}
 		let ptrs = Ptrs(&mut pos, &mut out, targets_ref, arena_ref, prefix, cfg, hook);
+		install_hidden_probe(&exec, targets_ref, arena_ref);
 		exec.set_decider(Box::new(move |g: &mut Inner| {
 			let p = &ptrs;
 			let pos: &mut usize = unsafe { &mut *p.0 };
